@@ -809,7 +809,7 @@ Qed.
 (* ---- with the control ring ---------------------------------------------------------------
    [vexec]: what an ADD/MOD entry of the ring must achieve once flushed (possibly through
    the EEXIST -> MOD retry); [virt_ep]: the interest set after all prepared entries. *)
-Definition entry := (ctlop * Z * mask)%type.
+Notation entry := (ctlop * Z * mask)%type (only parsing).
 Definition efd (e : entry) : Z := snd (fst e).
 Definition vexec (t : Z -> option nat) (e : Z -> nat -> option mask) (ent : entry) :=
   match t (efd ent) with Some o => ep_set e (efd ent) o (Some (snd ent)) | None => e end.
@@ -942,33 +942,33 @@ Lemma ctl_flush_all_spec s :
   (forall x y, ep s' x y = vfold (fdt s) (sq s) (ep s) x y).
 Proof.
   intros Ha Hnd Hok. cbv zeta. unfold ctl_flush_all.
+  assert (Hcf : forall z, ctl_flush z = set_sq (fst (flush_entries (set_sq z []) (sq z) []))
+                                               (snd (flush_entries (set_sq z []) (sq z) []))).
+  { intro z. unfold ctl_flush. destruct (flush_entries _ _ _); reflexivity. }
   destruct (sq s) as [|e0 l0] eqn:Hsq.
   - split_all; auto. apply kframe_refl.
   - rewrite <- Hsq in *. clear Hsq e0 l0.
-    unfold ctl_flush at 1 3.
     destruct (flush_entries_spec (sq s) (set_sq s []) []) as [I1 [I2 [I3 [I4 [I5 I6]]]]];
       try rewrite app_nil_r; auto.
     cbv zeta in *. rewrite app_nil_r in I6. cbn [fdt ep set_sq] in I6.
-    destruct (flush_entries (set_sq s []) (sq s) []) as [s1 retry] eqn:Hfe.
-    try rewrite Hfe in I1; try rewrite Hfe in I2; try rewrite Hfe in I3; try rewrite Hfe in I4;
-      try rewrite Hfe in I5; try rewrite Hfe in I6. cbn [fst snd] in *.
+    rewrite !Hcf.
+    remember (fst (flush_entries (set_sq s []) (sq s) [])) as s1 eqn:Hs1.
+    remember (snd (flush_entries (set_sq s []) (sq s) [])) as retry eqn:Hrt.
+    cbn [sq set_sq].
     assert (Hmods : forall ent, In ent retry -> fst (fst ent) = CMod).
     { intros ent Hin. destruct (I5 _ Hin) as [[]|]; auto. }
     assert (Hfr1 : kframe s s1).
     { eapply kframe_trans; [|exact I2]. unfold kframe. split_all; reflexivity. }
-    cbn [sq set_sq]. destruct retry as [|e1 l1] eqn:Hr.
-    + split_all; auto. 
+    destruct retry as [|e1 l1] eqn:Hr.
+    + split_all; auto.
       * destruct Hfr1 as [A1 [A2 [A3 [A4 [A5 [A6 A7]]]]]]. unfold kframe. split_all; auto.
       * intros x y. rewrite <- I6. reflexivity.
     + rewrite <- Hr in *. clear Hr e1 l1.
-      unfold ctl_flush. cbn [sq set_sq].
       pose proof (flush_mod_only retry (set_sq (set_sq s1 retry) []) [] Hmods I3) as Hret.
       destruct (flush_entries_spec retry (set_sq (set_sq s1 retry) []) []) as [J1 [J2 [J3 [J4 [J5 J6]]]]];
         try rewrite app_nil_r; auto.
       cbv zeta in *. rewrite app_nil_r in J6. cbn [fdt ep set_sq] in J6.
-      destruct (flush_entries (set_sq (set_sq s1 retry) []) retry []) as [s2 retry2] eqn:Hfe2.
-      try rewrite Hfe2 in Hret; try rewrite Hfe2 in J1; try rewrite Hfe2 in J2; try rewrite Hfe2 in J3;
-        try rewrite Hfe2 in J4; try rewrite Hfe2 in J5; try rewrite Hfe2 in J6. cbn [fst snd] in *.
+      remember (fst (flush_entries (set_sq (set_sq s1 retry) []) retry [])) as s2 eqn:Hs2.
       rewrite Hret in * by auto.
       assert (Hfr2 : kframe s s2).
       { eapply kframe_trans; [exact Hfr1|]. eapply kframe_trans; [|exact J2]. unfold kframe. split_all; reflexivity. }
